@@ -261,3 +261,733 @@ Section ListSub.
         inversion H; subst. apply sub_cons. apply IH. reflexivity.
   Qed.
 End ListSub.
+
+(* ------------------------------------------------------------------ *)
+(* locating and replacing handles                                      *)
+(* ------------------------------------------------------------------ *)
+
+Lemma find_in_list_None {A} (f : A -> option node) l :
+  find_in_list f l = None -> Forall (fun x => f x = None) l.
+Proof.
+  induction l as [|x l IH]; simpl; intros H; [constructor|].
+  destruct (f x) eqn:E; [discriminate|]. constructor; auto.
+Qed.
+
+Lemma find_in_list_all_None {A} (f : A -> option node) l :
+  Forall (fun x => f x = None) l -> find_in_list f l = None.
+Proof. intros H. induction H as [|x l Hx H IH]; simpl; [reflexivity|]. rewrite Hx. exact IH. Qed.
+
+Lemma map_id_Forall {A} (g : A -> A) l : Forall (fun x => g x = x) l -> map g l = l.
+Proof. intros H. induction H as [|x l Hx H IH]; simpl; congruence. Qed.
+
+Lemma not_in_flat_map {A} (f : A -> list nat) l h :
+  ~ In h (flat_map f l) -> Forall (fun x => ~ In h (f x)) l.
+Proof.
+  intros H. apply Forall_forall. intros x Hx Hin. apply H. apply in_flat_map. eauto.
+Qed.
+
+Lemma find_node_absent h r n :
+  ~ In h (node_ids n) -> find_node h n = None /\ replace_node h r n = n.
+Proof.
+  induction n as [v|id c l IH|id c d IH] using node_ind2; intros H.
+  - split; reflexivity.
+  - simpl in H. simpl. destruct (Nat.eqb id h) eqn:E.
+    { apply Nat.eqb_eq in E. exfalso. apply H. left; exact E. }
+    assert (H' : Forall (fun x => ~ In h (node_ids x)) l).
+    { apply not_in_flat_map. intros Hin. apply H. right; exact Hin. }
+    split.
+    + apply find_in_list_all_None. rewrite Forall_forall in *. intros x Hx.
+      apply (IH x Hx). apply H'; exact Hx.
+    + f_equal. apply map_id_Forall. rewrite Forall_forall in *. intros x Hx.
+      apply (IH x Hx). apply H'; exact Hx.
+  - simpl in H. simpl. destruct (Nat.eqb id h) eqn:E.
+    { apply Nat.eqb_eq in E. exfalso. apply H. left; exact E. }
+    assert (H' : Forall (fun kn : key * node => ~ In h (node_ids (snd kn))) d).
+    { apply (not_in_flat_map (fun kn : key * node => node_ids (snd kn))).
+      intros Hin. apply H. right; exact Hin. }
+    split.
+    + apply find_in_list_all_None. rewrite Forall_forall in *. intros x Hx.
+      apply (IH x Hx). apply H'; exact Hx.
+    + f_equal. apply map_id_Forall. rewrite Forall_forall in *. intros [k x] Hx. simpl.
+      f_equal. apply (IH (k, x) Hx). apply (H' (k, x)); exact Hx.
+Qed.
+
+Lemma find_node_None h n : find_node h n = None -> ~ In h (node_ids n).
+Proof.
+  induction n as [v|id c l IH|id c d IH] using node_ind2; simpl; intros H.
+  - intros [].
+  - destruct (Nat.eqb id h) eqn:E; [discriminate|]. apply Nat.eqb_neq in E.
+    apply find_in_list_None in H. intros [Hin|Hin]; [contradiction|].
+    apply in_flat_map in Hin. destruct Hin as [x [Hx Hin]].
+    rewrite Forall_forall in *. exact (IH x Hx (H x Hx) Hin).
+  - destruct (Nat.eqb id h) eqn:E; [discriminate|]. apply Nat.eqb_neq in E.
+    apply find_in_list_None in H. intros [Hin|Hin]; [contradiction|].
+    apply in_flat_map in Hin. destruct Hin as [x [Hx Hin]].
+    rewrite Forall_forall in *. exact (IH x Hx (H x Hx) Hin).
+Qed.
+
+Lemma find_node_Some_in h n m : find_node h n = Some m -> In h (node_ids n).
+Proof.
+  intros H. destruct (in_dec Nat.eq_dec h (node_ids n)) as [Hin|Hnin]; [exact Hin|].
+  destruct (find_node_absent h n n Hnin) as [E _]. congruence.
+Qed.
+
+Section FindSplit.
+  Context {A : Type}.
+  Variables (f : A -> option node) (g : A -> A) (ids : A -> list nat) (h : nat).
+  Hypothesis absent : forall x, ~ In h (ids x) -> f x = None /\ g x = x.
+  Hypothesis none_absent : forall x, f x = None -> ~ In h (ids x).
+
+  Lemma find_in_list_split l m :
+    find_in_list f l = Some m -> NoDup (flat_map ids l) ->
+    exists l1 x l2, l = l1 ++ x :: l2 /\ f x = Some m /\ map g l = l1 ++ g x :: l2.
+  Proof.
+    induction l as [|x l IH]; simpl; intros H N.
+    - discriminate.
+    - apply NoDup_app_inv in N. destruct N as [N1 [N2 N3]].
+      destruct (f x) as [r|] eqn:E.
+      + inversion H; subst r. exists [], x, l. split; [reflexivity|]. split; [exact E|].
+        simpl. f_equal. apply map_id_Forall. apply Forall_forall. intros y Hy.
+        apply absent. intros Hin.
+        assert (Hx : In h (ids x)).
+        { destruct (in_dec Nat.eq_dec h (ids x)) as [Hi|Hn]; [exact Hi|].
+          destruct (absent x Hn) as [E' _]. congruence. }
+        apply (N3 h Hx). apply in_flat_map. eauto.
+      + destruct (IH H N2) as [l1 [x0 [l2 [E1 [E2 E3]]]]].
+        exists (x :: l1), x0, l2. split; [simpl; congruence|]. split; [exact E2|].
+        simpl. rewrite E3. f_equal. apply absent. apply none_absent. exact E.
+  Qed.
+End FindSplit.
+
+(* the ids of a tree around a handle, and what replacing the handle's node does to them *)
+Lemma find_replace_ids h r : forall n m,
+  NoDup (node_ids n) -> find_node h n = Some m ->
+  exists pre post, node_ids n = pre ++ node_ids m ++ post
+                   /\ node_ids (replace_node h r n) = pre ++ node_ids r ++ post.
+Proof.
+  induction n as [v|id c l IH|id c d IH] using node_ind2; intros m N H.
+  - discriminate.
+  - simpl in H. simpl replace_node. destruct (Nat.eqb id h) eqn:E.
+    + inversion H; subst m. exists [], []. rewrite !app_nil_r. split; reflexivity.
+    + simpl in N. inversion N as [|? ? Hnin N']; subst.
+      destruct (find_in_list_split (find_node h) (replace_node h r) node_ids h
+                  (find_node_absent h r) (find_node_None h) l m H N')
+        as [l1 [x [l2 [E1 [E2 E3]]]]].
+      rewrite E3. subst l. rewrite Forall_forall in IH.
+      assert (Nx : NoDup (node_ids x)).
+      { rewrite flat_map_app in N'. apply NoDup_app_inv in N'. destruct N' as [_ [N' _]].
+        simpl in N'. apply NoDup_app_inv in N'. tauto. }
+      destruct (IH x (in_elt x l1 l2) m Nx E2) as [pre [post [P1 P2]]].
+      exists (id :: lids l1 ++ pre), (post ++ lids l2). simpl.
+      rewrite !flat_map_app. simpl. rewrite P1, P2. unfold lids.
+      rewrite <- !app_assoc. split; reflexivity.
+  - simpl in H. simpl replace_node. destruct (Nat.eqb id h) eqn:E.
+    + inversion H; subst m. exists [], []. rewrite !app_nil_r. split; reflexivity.
+    + simpl in N. inversion N as [|? ? Hnin N']; subst.
+      destruct (find_in_list_split (fun kn : key * node => find_node h (snd kn))
+                  (fun kn : key * node => (fst kn, replace_node h r (snd kn)))
+                  (fun kn : key * node => node_ids (snd kn)) h
+                  (fun x Hx => let (A1, A2) := find_node_absent h r (snd x) Hx in
+                               conj A1 (match x as x0 return replace_node h r (snd x0) = snd x0 ->
+                                                (fst x0, replace_node h r (snd x0)) = x0
+                                        with (k, w) => fun e => f_equal (pair k) e end A2))
+                  (fun x => find_node_None h (snd x)) d m H N')
+        as [l1 [x [l2 [E1 [E2 E3]]]]].
+      rewrite E3. subst d. rewrite Forall_forall in IH.
+      assert (Nx : NoDup (node_ids (snd x))).
+      { rewrite flat_map_app in N'. apply NoDup_app_inv in N'. destruct N' as [_ [N' _]].
+        simpl in N'. apply NoDup_app_inv in N'. tauto. }
+      destruct (IH x (in_elt x l1 l2) m Nx E2) as [pre [post [P1 P2]]].
+      exists (id :: eids l1 ++ pre), (post ++ eids l2). simpl.
+      rewrite !flat_map_app. simpl. rewrite P1, P2. unfold eids.
+      rewrite <- !app_assoc. split; reflexivity.
+Qed.
+
+Lemma find_node_id h n m : find_node h n = Some m -> node_id m = Some h.
+Proof.
+  revert m. induction n as [v|id c l IH|id c d IH] using node_ind2; intros m H; simpl in H.
+  - discriminate.
+  - destruct (Nat.eqb id h) eqn:E.
+    + inversion H; subst. apply Nat.eqb_eq in E. simpl. congruence.
+    + clear E. induction IH as [|x l Hx _ IHl]; simpl in H; [discriminate|].
+      destruct (find_node h x) eqn:E1; [inversion H; subst; auto|auto].
+  - destruct (Nat.eqb id h) eqn:E.
+    + inversion H; subst. apply Nat.eqb_eq in E. simpl. congruence.
+    + clear E. induction IH as [|x l Hx _ IHl]; simpl in H; [discriminate|].
+      destruct (find_node h (snd x)) eqn:E1; [inversion H; subst; auto|auto].
+Qed.
+
+(* head facts of the tree after a replacement by a node with the same head *)
+Lemma replace_head h r n m :
+  find_node h n = Some m ->
+  node_id r = node_id m -> node_cls r = node_cls m -> node_kind r = node_kind m ->
+  node_id (replace_node h r n) = node_id n /\ node_cls (replace_node h r n) = node_cls n
+  /\ node_kind (replace_node h r n) = node_kind n.
+Proof.
+  intros H H1 H2 H3. destruct n as [v|id c l|id c d]; simpl in *.
+  - discriminate.
+  - destruct (Nat.eqb id h); [inversion H; subst m; simpl in *; auto|simpl; auto].
+  - destruct (Nat.eqb id h); [inversion H; subst m; simpl in *; auto|simpl; auto].
+Qed.
+
+Lemma container_iff_id n : node_is_container n = true <-> node_id n <> None.
+Proof. destruct n; simpl; split; intros H; try congruence; try discriminate; exfalso; apply H; reflexivity. Qed.
+
+Lemma list_setslice_sub {A} (l : list A) s es l' :
+  list_setslice l s es = Ok l' -> sub l' (l ++ es).
+Proof.
+  unfold list_setslice. destruct (slice_adjust (zlen l) s) as [[[[start stop] step] cnt]|e]; [|discriminate].
+  destruct (Z.eqb step 1).
+  - intros H. inversion H; subst. clear H.
+    eapply sub_perm_l; [|apply sub_app; [apply (sub_firstn_skipn l (Z.to_nat start)
+                                 (Z.to_nat (if Z.ltb stop start then start else stop)))|apply sub_refl]].
+    + rewrite <- app_assoc. apply Permutation_app_head. apply Permutation_app_comm.
+    + destruct (Z.ltb stop start) eqn:E; [lia|]. apply Z.ltb_ge in E. lia.
+  - destruct (Z.eqb (zlen es) cnt); [|discriminate]. intros H. inversion H; subst.
+    apply sub_assign_at.
+Qed.
+
+Lemma list_pop_sub {A} (l : list A) z x l' : list_pop l z = Ok (x, l') -> sub l' l.
+Proof.
+  unfold list_pop. destruct (norm_idx (zlen l) z) as [j|]; [|discriminate].
+  destruct (nth_error l j); [|discriminate]. intros H. inversion H; subst. apply sub_del_nth.
+Qed.
+
+Lemma iter_val_wf v vs : iter_val v = Ok vs -> wf_val v = true -> Forall (fun w => wf_val w = true) vs.
+Proof.
+  destruct v as [[| | | |s|]|l|d]; simpl; intros H W; try discriminate; inversion H; subst.
+  - apply Forall_forall. intros w Hw. apply in_map_iff in Hw. destruct Hw as [c [<- _]]. reflexivity.
+  - apply forallb_Forall'. exact W.
+  - apply Forall_forall. intros w Hw. apply in_map_iff in Hw. destruct Hw as [[k x] [<- _]].
+    simpl. destruct k; reflexivity.
+Qed.
+
+Lemma lids_map_NV {A} (g : A -> val) l : lids (map (fun x => NV (g x)) l) = [].
+Proof. induction l; simpl; auto. Qed.
+
+Lemma val_ok_str L s : val_ok L (VS (SStr s)) = true.
+Proof. destruct L as [[] [] []]; reflexivity. Qed.
+
+Lemma key_ok_vkey vs k : key_ok (lang3 vs) k = true -> val_ok (lang3 vs) (vkey k) = true.
+Proof.
+  destruct k as [s|t]; simpl; [intros _; apply val_ok_str|].
+  intros H. pose proof (lang3_str_keys vs) as HS. unfold key_ok in H. unfold val_ok.
+  destruct (l_str_keys (lang3 vs)); [simpl in H; discriminate|].
+  destruct (l_json_leaves (lang3 vs)); [discriminate HS; auto|].
+  destruct (l_no_dots (lang3 vs)); reflexivity.
+Qed.
+
+(* the argument values a mutator stores; [wf_val] only says that dict keys are unique
+   (always true of Python dicts) and puts NO restriction on forbidden data *)
+Definition lop_stored (o : lop) : list val :=
+  match o with
+  | LSet _ v | LSetSlice _ v | LInsert _ v | LAppend v | LExtend v | LIAdd v | LReset v => [v]
+  | _ => []
+  end.
+Definition dop_stored (o : dop) : list val :=
+  match o with
+  | DSet _ v | DSetdefault _ v | DUpdate v | DReset v => [v]
+  | _ => []
+  end.
+Definition nop_stored (o : nop) : list val :=
+  match o with OL o => lop_stored o | OD o => dop_stored o end.
+Definition op_args_wf (op : mop) : Prop :=
+  match op with
+  | MOp _ _ o => forall v, In v (nop_stored o) -> wf_val v = true
+  | _ => True
+  end.
+
+Lemma dict_set_sub {A} (d : list (key * A)) k n : sub (dict_set d k n) (d ++ [(k, n)]).
+Proof.
+  induction d as [|[k' v'] d IH]; simpl.
+  - apply sub_refl.
+  - destruct (key_eqb k k') eqn:E.
+    + apply key_eqb_eq in E. subst k'. apply sub_skip.
+      eapply sub_perm; [apply sub_refl|apply Permutation_cons_append].
+    + apply sub_cons. exact IH.
+Qed.
+
+Lemma dict_remove_sub {A} (d : list (key * A)) k : sub (dict_remove d k) d.
+Proof.
+  induction d as [|[k' v'] d IH]; simpl.
+  - apply sub_nil.
+  - destruct (key_eqb k k'); [apply sub_skip, sub_refl|apply sub_cons, IH].
+Qed.
+
+Lemma alookup_dict_remove_None {A} (d : list (key * A)) k k0 :
+  alookup k0 d = None -> alookup k0 (dict_remove d k) = None.
+Proof.
+  induction d as [|[k' v'] d IH]; simpl; intros H.
+  - reflexivity.
+  - destruct (key_eqb k0 k') eqn:E0; [discriminate|].
+    destruct (key_eqb k k'); simpl; [exact H|]. rewrite E0. auto.
+Qed.
+
+Lemma keys_unique_dict_remove {A} (d : list (key * A)) k :
+  keys_unique d = true -> keys_unique (dict_remove d k) = true.
+Proof.
+  induction d as [|[k' v'] d IH]; simpl; intros H.
+  - reflexivity.
+  - destruct (alookup k' d) eqn:E; [discriminate|].
+    destruct (key_eqb k k'); simpl; [exact H|].
+    rewrite (alookup_dict_remove_None d k k' E). auto.
+Qed.
+
+Lemma alookup_app_None {A} (d1 d2 : list (key * A)) k :
+  alookup k (d1 ++ d2) = None -> alookup k d1 = None.
+Proof.
+  induction d1 as [|[k' v'] d1 IH]; simpl; intros H; [reflexivity|].
+  destruct (key_eqb k k'); [discriminate|auto].
+Qed.
+
+Lemma keys_unique_app_l {A} (d1 d2 : list (key * A)) :
+  keys_unique (d1 ++ d2) = true -> keys_unique d1 = true.
+Proof.
+  induction d1 as [|[k v] d1 IH]; simpl; intros H; [reflexivity|].
+  destruct (alookup k (d1 ++ d2)) eqn:E; [discriminate|].
+  rewrite (alookup_app_None _ _ _ E). auto.
+Qed.
+
+Lemma dict_popitem_split {A} (d : list (key * A)) kv d' :
+  dict_popitem d = Ok (kv, d') -> d = d' ++ [kv].
+Proof.
+  unfold dict_popitem. destruct (rev d) as [|x r] eqn:E; [discriminate|].
+  intros H. inversion H; subst. rewrite <- (rev_involutive d), E. reflexivity.
+Qed.
+
+Lemma dict_update_Forall {A} (P : key * A -> Prop) (o acc : list (key * A)) :
+  (forall k k' v, P (k, v) -> P (k', v)) ->
+  Forall P acc -> Forall P o -> Forall P (dict_update acc o).
+Proof.
+  intros HP. unfold dict_update. revert acc. induction o as [|[k v] o IH]; simpl; intros acc Ha Ho.
+  - exact Ha.
+  - inversion Ho; subst. apply IH; [|assumption]. apply Forall_dict_set; auto.
+Qed.
+
+Lemma pairs_to_dict_wf l d :
+  pairs_to_dict l = Some d -> Forall (fun v => wf_val v = true) l ->
+  Forall (fun kv : key * val => wf_val (snd kv) = true) d.
+Proof.
+  revert d. induction l as [|x l IH]; simpl; intros d H W.
+  - inversion H; subst. constructor.
+  - destruct x as [|[|[[| | | |s|]| |] [|v [|]]]|]; try discriminate.
+    destruct (pairs_to_dict l) as [d0|]; [|discriminate]. inversion H; subst.
+    inversion W as [|? ? W1 W2]; subst. constructor; [|apply IH; auto].
+    simpl in W1 |- *. rewrite andb_true_r in W1. exact W1.
+Qed.
+
+Lemma as_mapping_wf v od :
+  as_mapping v = Ok od -> wf_val v = true -> Forall (fun kv : key * val => wf_val (snd kv) = true) od.
+Proof.
+  destruct v as [s|l|d]; simpl; intros H W.
+  - discriminate.
+  - destruct (pairs_to_dict l) as [d0|] eqn:E; [|discriminate]. inversion H; subst.
+    apply dict_update_Forall; [auto|constructor|].
+    eapply pairs_to_dict_wf; [exact E|]. apply forallb_Forall'. exact W.
+  - inversion H; subst. apply wf_val_VD. exact W.
+Qed.
+
+Lemma update_entries_wf (d : list (key * node)) od :
+  Forall (fun kv : key * val => wf_val (snd kv) = true) od ->
+  Forall (fun kv : key * val => wf_val (snd kv) = true) (update_entries d od).
+Proof.
+  intros H. unfold update_entries.
+  assert (H' : Forall (fun kv : key * val => wf_val (snd kv) = true) (dict_update [] od)).
+  { apply dict_update_Forall; auto. }
+  apply Forall_app. split.
+  - apply Forall_forall. intros kv Hin. apply in_flat_map in Hin. destruct Hin as [kn [_ Hin]].
+    destruct (alookup (fst kn) (dict_update [] od)) as [v|] eqn:E; [|destruct Hin].
+    destruct Hin as [<-|[]]. simpl. apply alookup_In in E. rewrite Forall_forall in H'.
+    apply (H' (fst kn, v)). exact E.
+  - apply Forall_filter'. exact H'.
+Qed.
+
+Lemma fresh_nil nx nx' : nx <= nx' -> ids_step [] nx [] nx'.
+Proof. intros H. apply ids_step_fresh; [exact H|constructor|intros i []]. Qed.
+
+Lemma sub_ids_step {A} (f : A -> list nat) l l' news nx nx2 :
+  ids_pre (flat_map f l) nx -> sub l' (l ++ news) -> ids_step [] nx (flat_map f news) nx2 ->
+  ids_step (flat_map f l) nx (flat_map f l') nx2.
+Proof.
+  intros [P1 P2] S [F1 [F2 F3]].
+  pose proof (sub_flat_map f _ _ S) as S'. rewrite flat_map_app in S'.
+  split; [exact F1|]. split.
+  - eapply sub_NoDup; [exact S'|]. apply NoDup_app'; auto.
+    intros i Hi Hi2. apply P2 in Hi. destruct (F3 i Hi2) as [[]|H]. lia.
+  - intros i Hi. apply (sub_incl _ _ S') in Hi. apply in_app_or in Hi.
+    destruct Hi as [Hi|Hi]; [left; exact Hi|]. destruct (F3 i Hi) as [[]|H]. right; exact H.
+Qed.
+
+(* ------------------------------------------------------------------ *)
+(* good nodes: structurally well-formed members of the family, clean   *)
+(* ------------------------------------------------------------------ *)
+
+Section Nodes.
+  Variables (T : class_table) (b : nat) (L : lang).
+  Hypothesis HB : backend_has_both T b = true.
+  Hypothesis HU : uniform_backend T b L = true.
+
+  Definition gnode (n : node) : Prop := wfn T b n /\ clean L n.
+  Definition gentry (kn : key * node) : Prop := key_ok L (fst kn) = true /\ gnode (snd kn).
+
+  Lemma gnode_NL id c l : gnode (NL id c l) <-> CkL T b c /\ Forall gnode l.
+  Proof.
+    unfold gnode. rewrite wfn_NL, clean_NL, !Forall_forall. split.
+    - intros [[H1 H2] H3]. split; auto.
+    - intros [H1 H2]. split; [split; [exact H1|]|]; intros x Hx; apply H2; exact Hx.
+  Qed.
+
+  Lemma gnode_ND id c d :
+    gnode (ND id c d) <-> CkD T b c /\ keys_unique d = true /\ Forall gentry d.
+  Proof.
+    unfold gentry, gnode. rewrite wfn_ND, clean_ND. unfold KUu. rewrite !Forall_forall. split.
+    - intros [[H1 [H2 H3]] H4]. split; [exact H1|]. split; [exact H2|].
+      intros x Hx. split; [apply H4; exact Hx|]. split; [apply H3; exact Hx|apply H4; exact Hx].
+    - intros [H1 [H2 H3]]. split; [split; [exact H1|split; [exact H2|]]|]; intros x Hx;
+        destruct (H3 x Hx) as [A1 [A2 A3]]; auto.
+  Qed.
+
+  Lemma gnode_fb c v nx :
+    in_backend T b c = true -> val_ok L v = true -> wf_val v = true ->
+    gnode (fst (from_base T c v nx)).
+  Proof.
+    intros Hc Hv Hw. split.
+    - apply wfn_fb; assumption.
+    - unfold clean. rewrite to_base_from_base. exact Hv.
+  Qed.
+
+  Lemma gnode_scalar s : val_ok L (VS s) = true -> gnode (NV (VS s)).
+  Proof.
+    intros H. split; [|exact H]. split; [apply nib_NV|]. repeat split; reflexivity.
+  Qed.
+
+  Lemma gnode_leaf v : gnode (NV v) -> exists s, v = VS s.
+  Proof. intros [[_ [_ [H _]]] _]. destruct v; simpl in H; try discriminate. eauto. Qed.
+
+  Lemma gnode_in_backend n c : gnode n -> node_cls n = Some c -> in_backend T b c = true.
+  Proof.
+    intros [[H _] _] Hc. apply H. destruct n; simpl in *; try discriminate;
+      inversion Hc; subst; left; reflexivity.
+  Qed.
+
+  (* the node of a handle is good, and replacing it by a good node keeps the tree good *)
+  Lemma find_replace_gnode h r : forall n m,
+    NoDup (node_ids n) -> find_node h n = Some m -> gnode n ->
+    gnode m /\ (gnode r -> gnode (replace_node h r n)).
+  Proof.
+    induction n as [v|id c l IH|id c d IH] using node_ind2; intros m N H G.
+    - discriminate.
+    - simpl in H. simpl replace_node. destruct (Nat.eqb id h) eqn:E.
+      + inversion H; subst m. auto.
+      + simpl in N. inversion N as [|? ? Hnin N']; subst.
+        destruct (find_in_list_split (find_node h) (replace_node h r) node_ids h
+                    (find_node_absent h r) (find_node_None h) l m H N')
+          as [l1 [x [l2 [E1 [E2 E3]]]]].
+        rewrite E3. subst l. rewrite Forall_forall in IH.
+        assert (Nx : NoDup (node_ids x)).
+        { rewrite flat_map_app in N'. apply NoDup_app_inv in N'. destruct N' as [_ [N' _]].
+          simpl in N'. apply NoDup_app_inv in N'. tauto. }
+        apply gnode_NL in G. destruct G as [Gc Gl]. apply Forall_app in Gl.
+        destruct Gl as [G1 G2]. inversion G2 as [|? ? Gx G3]; subst.
+        destruct (IH x (in_elt x l1 l2) m Nx E2 Gx) as [Gm Gr].
+        split; [exact Gm|]. intros Hr. apply gnode_NL. split; [exact Gc|].
+        apply Forall_app. split; [exact G1|]. constructor; auto.
+    - simpl in H. simpl replace_node. destruct (Nat.eqb id h) eqn:E.
+      + inversion H; subst m. auto.
+      + simpl in N. inversion N as [|? ? Hnin N']; subst.
+        destruct (find_in_list_split (fun kn : key * node => find_node h (snd kn))
+                    (fun kn : key * node => (fst kn, replace_node h r (snd kn)))
+                    (fun kn : key * node => node_ids (snd kn)) h
+                    (fun x Hx => let (A1, A2) := find_node_absent h r (snd x) Hx in
+                                 conj A1 (match x as x0 return replace_node h r (snd x0) = snd x0 ->
+                                                  (fst x0, replace_node h r (snd x0)) = x0
+                                          with (k, w) => fun e => f_equal (pair k) e end A2))
+                    (fun x => find_node_None h (snd x)) d m H N')
+          as [l1 [x [l2 [E1 [E2 E3]]]]].
+        assert (KU : keys_unique (map (fun kn : key * node => (fst kn, replace_node h r (snd kn))) d)
+                     = keys_unique d) by apply keys_unique_map.
+        rewrite E3 in *. subst d. rewrite Forall_forall in IH.
+        assert (Nx : NoDup (node_ids (snd x))).
+        { rewrite flat_map_app in N'. apply NoDup_app_inv in N'. destruct N' as [_ [N' _]].
+          simpl in N'. apply NoDup_app_inv in N'. tauto. }
+        apply gnode_ND in G. destruct G as [Gc [Gk Gl]]. apply Forall_app in Gl.
+        destruct Gl as [G1 G2]. inversion G2 as [|? ? Gx G3]; subst. destruct Gx as [Gxk Gx].
+        destruct (IH x (in_elt x l1 l2) m Nx E2 Gx) as [Gm Gr].
+        split; [exact Gm|]. intros Hr. apply gnode_ND. split; [exact Gc|].
+        split; [rewrite KU; exact Gk|].
+        apply Forall_app. split; [exact G1|]. constructor; auto. split; simpl; auto.
+  Qed.
+
+  (* ---------------------------------------------------------------- *)
+  (* one operation on one node                                         *)
+  (* ---------------------------------------------------------------- *)
+
+  Definition step_ok (n : node) (nx : nat) (n2 : node) (nx2 : nat) : Prop :=
+    gnode n2 /\ ids_step (node_ids n) nx (node_ids n2) nx2
+    /\ node_id n2 = node_id n /\ node_cls n2 = node_cls n /\ node_kind n2 = node_kind n.
+
+  Lemma step_ok_same n nx : gnode n -> ids_pre (node_ids n) nx -> step_ok n nx n nx.
+  Proof. intros G P. split; [exact G|]. split; [apply ids_step_refl; exact P|]. auto. Qed.
+
+  Lemma upd_step_ok data n nx n' nx' e :
+    gnode n -> ids_pre (node_ids n) nx -> wf_val data = true ->
+    upd T data n nx = (n', nx', e) -> step_ok n nx n' nx'.
+  Proof.
+    intros [Gw Gc] P Hw E. split; [split|split].
+    - eapply upd_wfn; eauto.
+    - eapply upd_clean; [exact HU|exact (proj1 Gw)|exact Gc|exact E].
+    - eapply upd_ids_step; eauto.
+    - eapply upd_same_head; eauto.
+  Qed.
+
+  Lemma step_ok_NL id c l l' news nx nx2 :
+    gnode (NL id c l) -> ids_pre (node_ids (NL id c l)) nx ->
+    Forall gnode news -> ids_step [] nx (lids news) nx2 -> sub l' (l ++ news) ->
+    step_ok (NL id c l) nx (NL id c l') nx2.
+  Proof.
+    intros G P Gn F S. split; [|split; [|simpl; auto]].
+    - apply gnode_NL in G. destruct G as [Gc Gl]. apply gnode_NL. split; [exact Gc|].
+      eapply sub_Forall; [exact S|]. apply Forall_app. auto.
+    - apply (ids_step_cons id (lids l) nx (lids l') nx2); [exact P|].
+      apply (sub_ids_step node_ids l l' news); auto. eapply ids_pre_NL; exact P.
+  Qed.
+
+  Lemma step_ok_ND id c d d' news nx nx2 :
+    gnode (ND id c d) -> ids_pre (node_ids (ND id c d)) nx ->
+    Forall gentry news -> ids_step [] nx (eids news) nx2 -> sub d' (d ++ news) ->
+    keys_unique d' = true ->
+    step_ok (ND id c d) nx (ND id c d') nx2.
+  Proof.
+    intros G P Gn F S K. split; [|split; [|simpl; auto]].
+    - apply gnode_ND in G. destruct G as [Gc [Gk Gl]]. apply gnode_ND. split; [exact Gc|].
+      split; [exact K|]. eapply sub_Forall; [exact S|]. apply Forall_app. auto.
+    - apply (ids_step_cons id (eids d) nx (eids d') nx2); [exact P|].
+      apply (sub_ids_step (fun kn : key * node => node_ids (snd kn)) d d' news); auto.
+      eapply ids_pre_ND; exact P.
+  Qed.
+
+  Lemma in_backend_CkL c : CkL T b c -> in_backend T b c = true.
+  Proof. intros [H _]; exact H. Qed.
+  Lemma in_backend_CkD c : CkD T b c -> in_backend T b c = true.
+  Proof. intros [H _]; exact H. Qed.
+
+  Lemma L_is_lang3 c : in_backend T b c = true -> L = lang3 (validators_of T c).
+  Proof. intros Hc. symmetry. eapply uniform_lang; eauto. Qed.
+
+  (* the elements a slice assignment stores *)
+  Lemma elems_ok c n nx nx1 es :
+    in_backend T b c = true ->
+    gnode n -> ids_step [] nx (node_ids n) nx1 -> elems_of_node n = Ok es ->
+    Forall gnode es /\ ids_step [] nx (lids es) nx1.
+  Proof.
+    intros Hc G F E. destruct n as [v|i c' kids|i c' d]; simpl in E.
+    - destruct (gnode_leaf _ G) as [s ->]. destruct s; simpl in E; try discriminate.
+      inversion E; subst. rewrite map_map. rewrite lids_map_NV. split.
+      + apply Forall_forall. intros x Hx. apply in_map_iff in Hx. destruct Hx as [ch [<- _]].
+        apply gnode_scalar. apply val_ok_str.
+      + apply fresh_nil. destruct F; assumption.
+    - inversion E; subst. apply gnode_NL in G. split; [tauto|].
+      destruct F as [F1 [F2 F3]]. simpl in F2, F3. inversion F2; subst.
+      split; [exact F1|]. split; [assumption|]. intros j Hj. apply F3. right; exact Hj.
+    - inversion E; subst. apply gnode_ND in G. destruct G as [_ [_ G]].
+      rewrite (lids_map_NV (fun kn : key * node => vkey (fst kn))). split.
+      + apply Forall_forall. intros x Hx. apply in_map_iff in Hx. destruct Hx as [kn [<- Hkn]].
+        rewrite Forall_forall in G. destruct (G kn Hkn) as [Hk _].
+        assert (HV : val_ok L (vkey (fst kn)) = true).
+        { rewrite (L_is_lang3 c Hc) in *. apply key_ok_vkey. exact Hk. }
+        destruct (fst kn); apply gnode_scalar; exact HV.
+      + apply fresh_nil. destruct F; assumption.
+  Qed.
+
+  Lemma mu_ok id c l (rl : res (list node)) nx nx1 news (r : res val * option nat) n2 nx2 :
+    gnode (NL id c l) -> ids_pre (node_ids (NL id c l)) nx ->
+    Forall gnode news -> ids_step [] nx (lids news) nx1 ->
+    (forall l', rl = Ok l' -> sub l' (l ++ news)) ->
+    match rl with
+    | Ok l' => (plain_res (Ok vnone), NL id c l', nx1)
+    | Err e => (plain_res (Err e), NL id c l, nx1)
+    end = (r, n2, nx2) ->
+    step_ok (NL id c l) nx n2 nx2.
+  Proof.
+    intros G P Gn F S H. destruct rl as [l'|e]; inversion H; subst.
+    - eapply step_ok_NL; eauto.
+    - eapply step_ok_NL; eauto. apply sub_app_r, sub_refl.
+  Qed.
+
+  Lemma fb_one c v nx n nx1 :
+    in_backend T b c = true -> val_ok L v = true -> wf_val v = true ->
+    from_base T c v nx = (n, nx1) ->
+    gnode n /\ ids_step [] nx (node_ids n) nx1 /\ Forall gnode [n] /\ ids_step [] nx (lids [n]) nx1.
+  Proof.
+    intros Hc Hv Hw E. pose proof (gnode_fb c v nx Hc Hv Hw) as G. rewrite E in G. simpl in G.
+    pose proof (from_base_ids_step T [] c v nx n nx1 E) as F.
+    split; [exact G|]. split; [exact F|]. split; [constructor; auto|].
+    simpl. rewrite app_nil_r. exact F.
+  Qed.
+
+  Lemma fb_many c vs nx ns nx1 :
+    in_backend T b c = true -> Forall (fun v => val_ok L v = true) vs ->
+    Forall (fun v => wf_val v = true) vs ->
+    map_st (from_base T c) vs nx = (ns, nx1) ->
+    Forall gnode ns /\ ids_step [] nx (lids ns) nx1.
+  Proof.
+    intros Hc Hv Hw E. split.
+    - apply map_st_rel_intro in E. eapply map_st_rel_Forall; [exact E|].
+      rewrite Forall_forall in *. intros v Hin s. apply gnode_fb; auto.
+    - eapply map_from_base_ids_step; eauto.
+  Qed.
+
+  Lemma in_lop_ok id c l o nx c0 r n2 nx2 :
+    gnode (NL id c l) -> ids_pre (node_ids (NL id c l)) nx ->
+    in_backend T b c0 = true -> pre_lop T c0 o = None ->
+    (forall v, In v (lop_stored o) -> wf_val v = true) ->
+    in_lop T id c l o nx = (r, n2, nx2) ->
+    step_ok (NL id c l) nx n2 nx2.
+  Proof.
+    intros G P Hc0 Hpre Hwf H.
+    assert (Hc : in_backend T b c = true).
+    { apply gnode_NL in G. apply in_backend_CkL. tauto. }
+    pose proof (fresh_nil nx nx (le_n nx)) as F0.
+    destruct o; unfold in_lop in H; cbv beta iota zeta in H;
+      try (inversion H; subst; apply step_ok_same; assumption).
+    - (* LSet *) simpl in Hpre. apply (validate_ok T b L HU c0 v Hc0) in Hpre.
+      destruct (from_base T c v nx) as [n nx1] eqn:E.
+      destruct (fb_one c v nx n nx1 Hc Hpre (Hwf v (or_introl eq_refl)) E) as [_ [_ [Gn Fn]]].
+      eapply mu_ok; [exact G|exact P|exact Gn|exact Fn| |exact H].
+      intros l' El. unfold list_set in El. destruct (norm_idx (zlen l) i); inversion El; subst.
+      eapply sub_perm; [apply sub_set_nth|]. apply Permutation_cons_append.
+    - (* LSetSlice *) simpl in Hpre. apply (validate_ok T b L HU c0 v Hc0) in Hpre.
+      destruct (from_base T c v nx) as [n nx1] eqn:E.
+      destruct (fb_one c v nx n nx1 Hc Hpre (Hwf v (or_introl eq_refl)) E) as [Gn [Fn _]].
+      destruct (elems_of_node n) as [es|e] eqn:Ee.
+      + destruct (elems_ok c n nx nx1 es Hc Gn Fn Ee) as [Ges Fes].
+        eapply mu_ok; [exact G|exact P|exact Ges|exact Fes| |exact H].
+        intros l' El. destruct (slice_adjust (zlen l) s); simpl in El; [|discriminate].
+        eapply list_setslice_sub; exact El.
+      + eapply (mu_ok id c l _ nx nx1 []); [exact G|exact P|apply Forall_nil|apply fresh_nil; destruct Fn; assumption| |exact H].
+        intros l' El. destruct (slice_adjust (zlen l) s); simpl in El; discriminate.
+    - (* LDel *) eapply mu_ok; [exact G|exact P|apply Forall_nil|exact F0| |exact H].
+      intros l' El. unfold list_del in El. destruct (norm_idx (zlen l) i); inversion El; subst.
+      apply sub_app_r, sub_del_nth.
+    - (* LDelSlice *) eapply mu_ok; [exact G|exact P|apply Forall_nil|exact F0| |exact H].
+      intros l' El. unfold list_delslice in El. destruct (slice_indices (zlen l) s); inversion El; subst.
+      apply sub_app_r, sub_drop_indices.
+    - (* LInsert *) simpl in Hpre. apply (validate_ok T b L HU c0 v Hc0) in Hpre.
+      destruct (from_base T c v nx) as [n nx1] eqn:E.
+      destruct (fb_one c v nx n nx1 Hc Hpre (Hwf v (or_introl eq_refl)) E) as [_ [_ [Gn Fn]]].
+      inversion H; subst. eapply step_ok_NL; [exact G|exact P|exact Gn|exact Fn|].
+      unfold list_insert. exists []. rewrite app_nil_r.
+      eapply Permutation_trans; [apply Permutation_sym, Permutation_middle|].
+      rewrite firstn_skipn. apply Permutation_cons_append.
+    - (* LAppend *) simpl in Hpre. apply (validate_ok T b L HU c0 v Hc0) in Hpre.
+      destruct (from_base T c v nx) as [n nx1] eqn:E.
+      destruct (fb_one c v nx n nx1 Hc Hpre (Hwf v (or_introl eq_refl)) E) as [_ [_ [Gn Fn]]].
+      inversion H; subst. eapply step_ok_NL; [exact G|exact P|exact Gn|exact Fn|]. apply sub_refl.
+    - (* LExtend *) simpl in Hpre. destruct (iter_val v) as [vs|e] eqn:Ei; [|discriminate].
+      apply (validate_ok T b L HU c0 (VL vs) Hc0) in Hpre. apply val_ok_VL in Hpre.
+      pose proof (iter_val_wf v vs Ei (Hwf v (or_introl eq_refl))) as Hw.
+      destruct (map_st (from_base T c) vs nx) as [ns nx1] eqn:E.
+      destruct (fb_many c vs nx ns nx1 Hc Hpre Hw E) as [Gn Fn].
+      inversion H; subst. eapply step_ok_NL; [exact G|exact P|exact Gn|exact Fn|]. apply sub_refl.
+    - (* LIAdd *) simpl in Hpre. destruct (iter_val v) as [vs|e] eqn:Ei; [|discriminate].
+      apply (validate_ok T b L HU c0 (VL vs) Hc0) in Hpre. apply val_ok_VL in Hpre.
+      pose proof (iter_val_wf v vs Ei (Hwf v (or_introl eq_refl))) as Hw.
+      destruct (map_st (from_base T c) vs nx) as [ns nx1] eqn:E.
+      destruct (fb_many c vs nx ns nx1 Hc Hpre Hw E) as [Gn Fn].
+      inversion H; subst. eapply step_ok_NL; [exact G|exact P|exact Gn|exact Fn|]. apply sub_refl.
+    - (* LRemove *) eapply mu_ok; [exact G|exact P|apply Forall_nil|exact F0| |exact H].
+      intros l' El. apply sub_app_r. eapply sub_list_remove; exact El.
+    - (* LPop *) destruct (list_pop l match i with Some z => z | None => (-1)%Z end) as [[x l']|e] eqn:El.
+      + inversion H; subst. eapply step_ok_NL; [exact G|exact P|apply Forall_nil|exact F0|].
+        apply sub_app_r. eapply list_pop_sub; exact El.
+      + inversion H; subst. apply step_ok_same; assumption.
+    - (* LReverse *) inversion H; subst. eapply step_ok_NL; [exact G|exact P|apply Forall_nil|exact F0|].
+      apply sub_app_r.
+      eapply sub_perm_l; [apply Permutation_sym, Permutation_rev|apply sub_refl].
+    - (* LClear *) inversion H; subst. eapply step_ok_NL; [exact G|exact P|apply Forall_nil|exact F0|].
+      apply sub_nil.
+    - (* LReset *) destruct (upd T v (NL id c l) nx) as [[n' nx'] e] eqn:E.
+      assert (S : step_ok (NL id c l) nx n' nx').
+      { eapply upd_step_ok; [exact G|exact P|apply Hwf; left; reflexivity|exact E]. }
+      destruct e; inversion H; subst; exact S.
+  Qed.
+
+  Lemma in_dop_ok id c d o nx c0 r n2 nx2 :
+    gnode (ND id c d) -> ids_pre (node_ids (ND id c d)) nx ->
+    in_backend T b c0 = true -> pre_dop T c0 o = None ->
+    (forall v, In v (dop_stored o) -> wf_val v = true) ->
+    in_dop T id c d o nx = (r, n2, nx2) ->
+    step_ok (ND id c d) nx n2 nx2.
+  Proof.
+    intros G P Hc0 Hpre Hwf H.
+    assert (Hc : in_backend T b c = true).
+    { apply gnode_ND in G. apply in_backend_CkD. tauto. }
+    assert (Hk : keys_unique d = true) by (apply gnode_ND in G; tauto).
+    pose proof (fresh_nil nx nx (le_n nx)) as F0.
+    destruct o; unfold in_dop in H; cbv beta iota zeta in H;
+      try (inversion H; subst; apply step_ok_same; assumption).
+    - (* DSet *) simpl in Hpre. apply (validate_ok T b L HU c0 _ Hc0) in Hpre.
+      apply val_ok_VD_single in Hpre. destruct Hpre as [Hkey Hv].
+      destruct (from_base T c v nx) as [n nx1] eqn:E.
+      destruct (fb_one c v nx n nx1 Hc Hv (Hwf v (or_introl eq_refl)) E) as [Gn [Fn _]].
+      inversion H; subst.
+      eapply (step_ok_ND id c d _ [(k, n)]); [exact G|exact P| | |apply dict_set_sub|apply keys_unique_dict_set; exact Hk].
+      + constructor; [split; assumption|constructor].
+      + simpl. rewrite app_nil_r. exact Fn.
+    - (* DDel *) unfold dict_del in H. destruct (dict_has d k).
+      + inversion H; subst.
+        eapply (step_ok_ND id c d _ []); [exact G|exact P|apply Forall_nil|exact F0| |].
+        * apply sub_app_r, dict_remove_sub.
+        * apply keys_unique_dict_remove; exact Hk.
+      + inversion H; subst. apply step_ok_same; assumption.
+    - (* DPop *) destruct (alookup k d).
+      + inversion H; subst.
+        eapply (step_ok_ND id c d _ []); [exact G|exact P|apply Forall_nil|exact F0| |].
+        * apply sub_app_r, dict_remove_sub.
+        * apply keys_unique_dict_remove; exact Hk.
+      + inversion H; subst. apply step_ok_same; assumption.
+    - (* DPopitem *) destruct (dict_popitem d) as [[[k n] d']|e] eqn:E.
+      + inversion H; subst. apply dict_popitem_split in E.
+        eapply (step_ok_ND id c d _ []); [exact G|exact P|apply Forall_nil|exact F0| |].
+        * apply sub_app_r. rewrite E. apply sub_app_r, sub_refl.
+        * rewrite E in Hk. eapply keys_unique_app_l; exact Hk.
+      + inversion H; subst. apply step_ok_same; assumption.
+    - (* DClear *) inversion H; subst.
+      eapply (step_ok_ND id c d _ []); [exact G|exact P|apply Forall_nil|exact F0|apply sub_nil|reflexivity].
+    - (* DUpdate *) destruct (as_mapping v) as [od|e0] eqn:Em.
+      2:{ inversion H; subst. apply step_ok_same; assumption. }
+      pose proof (update_entries_wf d od (as_mapping_wf v od Em (Hwf v (or_introl eq_refl)))) as Hdata.
+      destruct (upd_entries T (fun w => upd T w) c (update_entries d od) d nx) as [[d' nx'] e] eqn:E.
+      assert (S : step_ok (ND id c d) nx (ND id c d') nx').
+      { pose proof G as G0. apply gnode_ND in G0. destruct G0 as [Gc [_ Gd]].
+        destruct (upd_entries_wfn T b HB c _ d nx d' nx' e Hdata Hc Hk) as [Hk' Hw']; [|exact E|].
+        { eapply Forall_impl; [|exact Gd]. intros kn [_ [A _]]. exact A. }
+        assert (Hg' : Forall (good_entry T b L) d').
+        { eapply (upd_entries_clean T b L HU (fun w => upd T w) c); [|exact Hc| |exact E].
+          - apply Forall_forall. intros kv _. apply upd_clean_all. exact HU.
+          - eapply Forall_impl; [|exact Gd]. intros kn [A [[B _] C]]. split; [exact A|]. split; assumption. }
+        split; [|split; [|simpl; auto]].
+        - apply gnode_ND. split; [exact Gc|]. split; [exact Hk'|].
+          rewrite Forall_forall in *. intros kn Hin. destruct (Hg' kn Hin) as [A [B _]].
+          split; [exact A|]. split; [apply Hw'; exact Hin|exact B].
+        - apply (ids_step_cons id (eids d) nx (eids d') nx'); [exact P|].
+          eapply upd_entries_ids_step; [exact E|]. eapply ids_pre_ND; exact P. }
+      destruct e; inversion H; subst; exact S.
+    - (* DSetdefault *) destruct (alookup k d).
+      { inversion H; subst. apply step_ok_same; assumption. }
+      destruct (validate (validators_of T c) (VD [(k, v)])) eqn:Ev.
+      { inversion H; subst. apply step_ok_same; assumption. }
+      apply (validate_ok T b L HU c _ Hc) in Ev.
+      apply val_ok_VD_single in Ev. destruct Ev as [Hkey Hv].
+      destruct (from_base T c v nx) as [n nx1] eqn:E.
+      destruct (fb_one c v nx n nx1 Hc Hv (Hwf v (or_introl eq_refl)) E) as [Gn [Fn _]].
+      inversion H; subst.
+      eapply (step_ok_ND id c d _ [(k, n)]); [exact G|exact P| | |apply dict_set_sub|apply keys_unique_dict_set; exact Hk].
+      + constructor; [split; assumption|constructor].
+      + simpl. rewrite app_nil_r. exact Fn.
+    - (* DReset *) destruct (upd T v (ND id c d) nx) as [[n' nx'] e] eqn:E.
+      assert (S : step_ok (ND id c d) nx n' nx').
+      { eapply upd_step_ok; [exact G|exact P|apply Hwf; left; reflexivity|exact E]. }
+      destruct e; inversion H; subst; exact S.
+  Qed.
+End Nodes.
